@@ -11,7 +11,7 @@ from . import common as c
 SUPPORT = ["Ast/Linked.v", "Ast/Tree.v", "Ast/Node.v", "Ast/Refute.v", "Ast/LinkedProofs.v", "Ast/IndexProofs.v",
            "Ast/NodeRefine.v", "Ast/ArrayRefine.v", "Ast/RootRefine.v", "Ast/ObjectRefine.v", "Ast/ObjectOps.v",
            "Ast/ObjectSet.v", "Ast/RootRefine2.v", "Ast/ArrayOps.v", "Ast/ArraySet.v", "Ast/RootRefine3.v", "Ast/ObjectIdx.v", "Ast/ObjectPop.v", "Ast/ObjectIdxOps.v",
-           "Ast/RootRefine4.v"]
+           "Ast/RootRefine4.v", "Ast/PathRefine.v", "Ast/MoveProofs.v", "Ast/MoveOps.v"]
 
 CLAIM = {
     "gens": ["AstConsts"],
@@ -273,9 +273,10 @@ def run(ctx):
         "documents are valid JSON",
         "caching.StrHash is a parameter of the model; runs are collision-free, the theorems about the index assume the hash injective "
         "on the keys present",
-        "node_refines_tree is proved at the ROOT (C15_node_refines_tree_root): every sequence of Look, Len on a non-lazy node, Load, Add, "
-        "Set/Unset with non-empty keys, SetByIndex, UnsetByIndex, Pop on any document, for a collision-free hash that never returns 0; "
-        "Move, SortKeys, ForEach, MarshalJSON, Interface and every operation below the root are covered by the three-way replay only",
+        "node_refines_tree is proved at the ROOT (C15_node_refines_tree_root_move): every sequence of Look, Len on a non-lazy node, Load, Add, "
+        "Set/Unset with non-empty keys, SetByIndex, UnsetByIndex, Pop, Move on an array without unset cells, on any document, for a "
+        "collision-free hash that never returns 0; below the root only lookups are proved (C15_lookups_at_any_depth, any hash); "
+        "Move over unset cells, SortKeys, ForEach, MarshalJSON, Interface and mutations below the root are covered by the three-way replay only",
         "V_ANY nodes, Cap(), IndexOrGet, the *UseNode / Map / Array converters and concurrent use are not modelled",
     ]
     p_ok = c.standard_P(ctx, CLAIM["gens"], SUPPORT)
